@@ -37,6 +37,23 @@ pub fn run(suite: &str, a: &[&str]) -> Option<String> {
         }
         "circ_offset" => scirc(Circle::new(pt(a[0], a[1]), u(a[2])).offset(i(a[3]))),
         "circ_wc" => scirc(Circle::with_center(pt(a[0], a[1]), u(a[2]))),
+        // contains() only; an arithmetic overflow panic (this harness is built with overflow checks) prints PANIC
+        "circ_in" => {
+            let c = Circle::new(pt(a[0], a[1]), u(a[2]));
+            let q = pt(a[3], a[4]);
+            match std::panic::catch_unwind(|| c.contains(q)) {
+                Ok(b) => sb(b).to_string(),
+                Err(_) => "PANIC".into(),
+            }
+        }
+        "ell_in" => {
+            let e = Ellipse::new(pt(a[0], a[1]), Size::new(u(a[2]), u(a[3])));
+            let q = pt(a[4], a[5]);
+            match std::panic::catch_unwind(|| e.contains(q)) {
+                Ok(b) => sb(b).to_string(),
+                Err(_) => "PANIC".into(),
+            }
+        }
         "ell_geom" => {
             let e = Ellipse::new(pt(a[0], a[1]), Size::new(u(a[2]), u(a[3])));
             let win = window(e.top_left.x, e.top_left.y, e.size.width, e.size.height, i(a[4]));
@@ -142,6 +159,104 @@ pub fn search(suite: &str, a: &[&str]) -> Option<String> {
                 Ok(n) => format!("OK {}", n),
                 Err(e) => e,
             }
+        }
+        // far probes: inside the exact no-overflow range of Circle::contains (4*dist^2 <= i32::MAX, recomputed here in
+        // i128) contains() must not panic and must be false outside the bounding box; what happens beyond the range
+        // (panic with overflow checks; a release build wraps) is reported as an observation only
+        "p_circ_far" => {
+            let c = Circle::new(pt(a[0], a[1]), u(a[2]));
+            let bb = c.bounding_box();
+            let d = c.diameter as i128;
+            let (cx, cy) = (2 * c.top_left.x as i128 + (d - 1).max(0), 2 * c.top_left.y as i128 + (d - 1).max(0));
+            let fits = |q: Point| {
+                let (dx, dy) = (cx - 2 * q.x as i128, cy - 2 * q.y as i128);
+                (2 * q.x as i128).abs() <= i32::MAX as i128 && (2 * q.y as i128).abs() <= i32::MAX as i128
+                    && dx.abs() <= i32::MAX as i128 && dy.abs() <= i32::MAX as i128
+                    && dx * dx + dy * dy <= i32::MAX as i128 && d * d <= u32::MAX as i128
+            };
+            let ctr = Point::new(c.top_left.x + (c.diameter as i32 - 1).max(0) / 2, c.top_left.y + (c.diameter as i32 - 1).max(0) / 2);
+            let mut probes = Vec::new();
+            // around the boundary of the range along the axes and the diagonal, and at multiples of 2^15 (where 4*dist^2 wraps to ~0)
+            for r in [23160, 23165, 23169, 23170, 23171, 23172, 23175, 16380, 16383, 16384, 16385, 16386, 32767, 32768, 32769, 32773, 65536, 65541, 98304] {
+                for (sx, sy) in [(1, 0), (-1, 0), (0, 1), (0, -1), (1, 1), (-1, 1), (1, -1), (-1, -1)] {
+                    for j in [-2, 0, 3, 5] {
+                        probes.push(Point::new(ctr.x + sx * r + (1 - sx.abs()) * j, ctr.y + sy * r + (1 - sy.abs()) * j));
+                    }
+                }
+            }
+            let (mut inside_n, mut pan, mut tru, mut fal) = (0, 0, 0, 0);
+            for q in probes {
+                let r = std::panic::catch_unwind(|| c.contains(q));
+                if fits(q) {
+                    inside_n += 1;
+                    match r {
+                        Err(_) => return Some(format!("FAIL Circle::contains({:?}) panics although every intermediate fits (d={})", q, d)),
+                        Ok(true) if !bb.contains(q) => return Some(format!("FAIL Circle::contains({:?}) is true outside the bounding box (in-range probe, d={})", q, d)),
+                        _ => {}
+                    }
+                } else {
+                    match r {
+                        Err(_) => pan += 1,
+                        Ok(true) => tru += 1,
+                        Ok(false) => fal += 1,
+                    }
+                }
+            }
+            format!("OK {} in-range probes; out of range (observation): {} panic, {} true, {} false", inside_n, pan, tru, fal)
+        }
+        "p_ell_far" => {
+            let e = Ellipse::new(pt(a[0], a[1]), Size::new(u(a[2]), u(a[3])));
+            let bb = e.bounding_box();
+            let (w, h) = (e.size.width as i128, e.size.height as i128);
+            let (cx, cy) = (2 * e.top_left.x as i128 + (w - 1).max(0), 2 * e.top_left.y as i128 + (h - 1).max(0));
+            let u64m = u64::MAX as i128;
+            let fits = |q: Point| {
+                let (dx, dy) = (2 * q.x as i128 - cx, 2 * q.y as i128 - cy);
+                let i32ok = |v: i128| v >= i32::MIN as i128 && v <= i32::MAX as i128;
+                i32ok(2 * q.x as i128) && i32ok(2 * q.y as i128) && i32ok(dx) && i32ok(dy)
+                    && if w == h { w * w <= u32::MAX as i128 } else { w.checked_mul(w).and_then(|a| a.checked_mul(h * h)).map_or(false, |t| t <= u64m) }
+                    && if w == h { true } else {
+                        let (bx, ay) = ((h * h).checked_mul(dx * dx), (w * w).checked_mul(dy * dy));
+                        match (bx, ay) { (Some(bx), Some(ay)) => bx <= u64m && ay <= u64m && bx + ay <= u64m, _ => false }
+                    }
+            };
+            let mut probes = Vec::new();
+            // where h^2 * dx^2 resp. w^2 * dy^2 reaches 2^64: |dx| = 2^32 / h, |dy| = 2^32 / w (doubled coordinates)
+            let rx = if h > 0 { (1i128 << 32) / h / 2 } else { 1 << 28 };
+            let ry = if w > 0 { (1i128 << 32) / w / 2 } else { 1 << 28 };
+            let ctr = (e.top_left.x as i128 + (w - 1).max(0) / 2, e.top_left.y as i128 + (h - 1).max(0) / 2);
+            for k10 in [3i128, 7, 9, 10, 20, 30] {
+                for j in [-40i128, -3, -1, 0, 1, 2, 40] {
+                    for s in [1i128, -1] {
+                        probes.push((ctr.0 + s * (k10 * rx / 10 + j), ctr.1 + j));
+                        probes.push((ctr.0 + j, ctr.1 + s * (k10 * ry / 10 + j)));
+                        probes.push((ctr.0 + s * (k10 * rx / 14 + j), ctr.1 + s * (k10 * ry / 14 - j)));
+                    }
+                }
+            }
+            let (mut inside_n, mut pan, mut tru, mut fal) = (0, 0, 0, 0);
+            for (qx, qy) in probes {
+                if qx.abs() > (1 << 30) || qy.abs() > (1 << 30) {
+                    continue;
+                }
+                let q = Point::new(qx as i32, qy as i32);
+                let r = std::panic::catch_unwind(|| e.contains(q));
+                if fits(q) {
+                    inside_n += 1;
+                    match r {
+                        Err(_) => return Some(format!("FAIL Ellipse::contains({:?}) panics although every intermediate fits ({}x{})", q, w, h)),
+                        Ok(true) if !bb.contains(q) => return Some(format!("FAIL Ellipse::contains({:?}) is true outside the bounding box (in-range probe, {}x{})", q, w, h)),
+                        _ => {}
+                    }
+                } else {
+                    match r {
+                        Err(_) => pan += 1,
+                        Ok(true) => tru += 1,
+                        Ok(false) => fal += 1,
+                    }
+                }
+            }
+            format!("OK {} in-range probes; out of range (observation): {} panic, {} true, {} false", inside_n, pan, tru, fal)
         }
         "p_rect_c05" => {
             let r = rc(a[0], a[1], a[2], a[3]);
